@@ -1,5 +1,6 @@
 import MimeModel.Lemmas.Heap
 import MimeModel.Lemmas.HeapAbs
+import MimeModel.Gen.Writes
 /-
   C14 at the level of pointers (Model/Heap.lean): `(*MIME).Extend` allocates a node with
   `parent: m` and stores `m.children = append([]*MIME{c}, m.children...)`.  Under the
@@ -69,6 +70,24 @@ theorem newMIME_rep {h : Heap α} {cs : List Ptr} {ts : List (Tree α)} {fp : Li
     ∀ x n, h[x]? = some n → ∃ n', (newMIME h a cs).1[x]? = some n' ∧ n'.info = n.info ∧
       n'.children = n.children ∧ (x ∉ cs → n' = n) ∧ (x ∈ cs → n'.parent = some h.length) :=
   HeapLemmas.newMIME_rep a hf
+
+/-- **regenerated tie: the stores of mime.go are the stores of the heap model** — every assignment
+    to a field of a `MIME` node and every `MIME` composite literal of the package, per function, as
+    the extractor reads them from the current source: `newMIME` allocates with the children and
+    sets each child's `parent` (`Heap.newMIME`), `clone` allocates without parent and children
+    (`Heap.clone`), `cloneHierarchy` links the previous clone to the new one (`Heap.cloneLoop`),
+    `Extend` allocates with `parent: m` and prepends to a *fresh* children slice (`Heap.extend`),
+    `alias` is used during construction only.  Nothing else writes a node: `match`, `lookup`,
+    `flatten`, `Parent` and the accessors only read (the frame the theorems above rely on). -/
+theorem tie_node_stores :
+    Gen.Writes.nodeStores =
+      ["newMIME:MIME{mime: mime, extension: extension, detector: detector, children: children}",
+       "newMIME:c.parent = m",
+       "alias:m.aliases = aliases",
+       "clone:MIME{mime: clonedMIME, aliases: m.aliases, extension: m.extension}",
+       "cloneHierarchy:lastChild.parent = pClone",
+       "Extend:MIME{mime: mime, extension: extension, detector: detector, parent: m, aliases: aliases}",
+       "Extend:m.children = append([]*MIME{c}, m.children...)"] := by decide
 
 /-- non-vacuity: extending node [0] of the example heap commutes with the abstraction -/
 example : (extend exHeap 1 9).bind (fun r => HeapAbs.abs r.1 3) = Tree.extendAt (.node 9 []) [0] exTree := by
